@@ -54,6 +54,27 @@ type Op struct {
 
 type Input struct {
 	Ops []Op `json:"ops"`
+	// EmptyId > 0: the task id with this number is spelt "" (the empty string) in this case - an id like any other to an
+	// ordinary list; every other id n is spelt as the decimal text of n.  The model compares ids only for equality
+	EmptyId int `json:"empty_id,omitempty"`
+}
+
+// emptyId: the id number spelt "" in the case being run (-1: none); cases of a child process run one after the other
+var emptyId = -1
+
+func idText(n int) string {
+	if n == emptyId {
+		return ""
+	}
+	return strconv.Itoa(n)
+}
+
+func idNum(s string) int {
+	if s == "" && emptyId >= 0 {
+		return emptyId
+	}
+	n, _ := strconv.Atoi(s)
+	return n
 }
 
 type Obs struct {
@@ -79,7 +100,7 @@ var probeIds = []int{1, 2, 3, 4, 5, 6}
 
 func mk(t Task) task.Task {
 	bt := task.NewTask("T")
-	bt.Id = strconv.Itoa(t.Id)
+	bt.Id = idText(t.Id)
 	bt.SetProp("uniq", t.Uniq)
 	bt.Metadata = meta{uniq: t.Uniq}
 	return bt
@@ -116,14 +137,14 @@ func goid() string {
 	return ""
 }
 
-var stringElem = regexp.MustCompile(`\[T:[^\]]*?:u(\d+)[^\]]*?,id=\s*(\d+)\]`)
+var stringElem = regexp.MustCompile(`\[T:[^\]]*?:u(\d+)[^\]]*?,id=\s*(\d*)\]`)
 
 // parseString: the tasks of a String() dump "[T::u<uniq>...,id=<id>], [..."
 func parseString(s string) []*Task {
 	var r []*Task
 	for _, m := range stringElem.FindAllStringSubmatch(s, -1) {
 		u, _ := strconv.Atoi(m[1])
-		id, _ := strconv.Atoi(m[2])
+		id := idNum(m[2])
 		r = append(r, &Task{Id: id, Uniq: u})
 	}
 	return r
@@ -141,7 +162,7 @@ func un(t task.Task) (res *Task) {
 			res = nil
 		}
 	}()
-	id, _ := strconv.Atoi(t.GetId())
+	id := idNum(t.GetId())
 	u, _ := t.GetProp("uniq").(int)
 	return &Task{Id: id, Uniq: u}
 }
@@ -188,6 +209,10 @@ func mkAll(ts []Task) []task.Task {
 
 // Run executes one op sequence on a fresh TaskQueue.
 func Run(in Input) Observation {
+	emptyId = -1
+	if in.EmptyId > 0 {
+		emptyId = in.EmptyId
+	}
 	os.Setenv("QUEUE_ACTIONS_METRICS", "no")
 	q := queue.NewTasksQueue().WithName("q")
 	ctx, cancel := context.WithCancel(context.Background())
@@ -224,7 +249,7 @@ func Run(in Input) Observation {
 			o.First = un(q.GetFirst())
 			o.Last = un(q.GetLast())
 			for _, id := range probeIds {
-				o.Gets = append(o.Gets, un(q.Get(strconv.Itoa(id))))
+				o.Gets = append(o.Gets, un(q.Get(idText(id))))
 			}
 		}()
 		if inHandler {
@@ -269,11 +294,11 @@ func Run(in Input) Observation {
 			case "AddLast":
 				q.AddLast(mk(*op.T))
 			case "AddAfter":
-				q.AddAfter(strconv.Itoa(op.Id), mk(*op.T))
+				q.AddAfter(idText(op.Id), mk(*op.T))
 			case "AddBefore":
-				q.AddBefore(strconv.Itoa(op.Id), mk(*op.T))
+				q.AddBefore(idText(op.Id), mk(*op.T))
 			case "Remove":
-				ret = q.Remove(strconv.Itoa(op.Id))
+				ret = q.Remove(idText(op.Id))
 			case "RemoveFirst":
 				ret = q.RemoveFirst()
 			case "RemoveLast":
@@ -281,13 +306,13 @@ func Run(in Input) Observation {
 			case "Filter":
 				keep := map[string]bool{}
 				for _, k := range op.Keep {
-					keep[strconv.Itoa(k)] = true
+					keep[idText(k)] = true
 				}
 				q.Filter(func(t task.Task) bool { return keep[t.GetId()] })
 			case "FilterDuring":
 				keep := map[string]bool{}
 				for _, k := range op.Keep {
-					keep[strconv.Itoa(k)] = true
+					keep[idText(k)] = true
 				}
 				done := make(chan task.Task, 1)
 				launched := false
@@ -307,11 +332,11 @@ func Run(in Input) Observation {
 						case "AddLast":
 							q.AddLast(mk(*c.T))
 						case "AddAfter":
-							q.AddAfter(strconv.Itoa(c.Id), mk(*c.T))
+							q.AddAfter(idText(c.Id), mk(*c.T))
 						case "AddBefore":
-							q.AddBefore(strconv.Itoa(c.Id), mk(*c.T))
+							q.AddBefore(idText(c.Id), mk(*c.T))
 						case "Remove":
-							r = q.Remove(strconv.Itoa(c.Id))
+							r = q.Remove(idText(c.Id))
 						case "RemoveFirst":
 							r = q.RemoveFirst()
 						case "RemoveLast":
@@ -549,6 +574,10 @@ func Render(in Input, obs *Observation, crash string) core.Case {
 		}
 	}
 	c.Key = kb.String()
+	if in.EmptyId > 0 {
+		c.Key += fmt.Sprintf("|empty-id:%d", in.EmptyId)
+		c.Tags = append(c.Tags, "an-id-is-the-empty-string")
+	}
 	c.Tags = append(c.Tags, fmt.Sprintf("len:%02d", len(in.Ops)/4*4))
 	// non-trivial: at least 3 operations of at least 2 kinds and a non-empty queue at some point
 	nonEmpty := false
@@ -982,6 +1011,10 @@ func Gen(r *core.Rng, tier string) ([]core.In[Input], bool) {
 			ins = append(ins, core.In[Input]{Input: g.sequence(n, 40, 25), Stream: "trigger"})
 		} else {
 			ins = append(ins, core.In[Input]{Input: g.sequence(n, 0, 12), Stream: "random"})
+		}
+		if i%6 == 5 {
+			// one of the ids in use is the empty string
+			ins[len(ins)-1].Input.EmptyId = 1 + g.r.Intn(4)
 		}
 	}
 	// bursts: the queue grows to 64-130 tasks (the backing array is reallocated several times),
